@@ -280,6 +280,10 @@ func runC10(tier string, seed uint64) {
 				k := c10Keys[rng.Intn(len(c10Keys))]
 				w := rng.Intn(100)
 				forceForm := false
+				if j == len(c10Scratch)+2 {
+					// ... and deletes a key below the zero-byte object "a" (never written; nothing may happen to "a")
+					b, w, k = buckets[0], 40, "a/b"
+				}
 				if j < len(c10Scratch)+2 {
 					// every history opens by storing the names a careless backend might use for the scratch copy of
 					// an upload of "n", then uploads "n" (they are keys of their own), then uploads "/lead" through
@@ -432,6 +436,13 @@ func runC10(tier string, seed uint64) {
 			// an upload to a key that lies above or below a stored key (a directory to the fs backends): refused or
 			// stored, never at the cost of the key that was there
 			c02Nesting(s, buckets[0])
+			// listings whose prefix spells a path to another bucket or to the backend's own directories, from every bucket
+			for bi, lb := range buckets[:min(2, len(buckets))] {
+				other := buckets[(bi+1)%len(buckets)]
+				for pi, pre := range []string{"../" + other + "/", "../", "./", "a/../", "../../metadata/" + other + "/", "../../buckets/" + other + "/", other + "/", "..", "a/./", ".hid", "../" + other, "a/../../" + other + "/"} {
+					listCheck(lb, pre, []string{"/", ""}[(pi+i)%2], pi%3 == 0)
+				}
+			}
 			// every key held at the end, looked for under the beginning of its own name
 			for _, lb := range buckets[:min(2, len(buckets))] {
 				seen := map[string]bool{}
